@@ -236,6 +236,34 @@ let register (reg : string -> (Sx.t list -> Sx.t) -> unit) : unit =
         L [Y (match o with Refresh.SeqServedOld -> "old" | Refresh.SeqServedNew -> "new" | Refresh.SeqUnauth -> "unauth");
            wr_bool called; wr_bool cleared]
       | _ -> raise (Bad "seq_refresh arity"));
+  (* ---- StoreFaults ---- *)
+  reg "store_flow" (function
+      | [scn; plan] ->
+        let tab = Hashtbl.create 4 in
+        List.iter (function
+            | L [i; Y k] ->
+              Hashtbl.replace tab (rd_int i) (match k with
+                  | "errbefore" -> StoreFaults.ErrBefore | "errafter" -> StoreFaults.ErrAfter
+                  | "corrupt" -> StoreFaults.Corrupt | "truncate" -> StoreFaults.Truncate
+                  | "missing" -> StoreFaults.Missing | _ -> StoreFaults.NoFault)
+            | v -> raise (Bad ("bad fault " ^ to_string v))) (match plan with L l -> l | _ -> []);
+        let p n = (match Hashtbl.find_opt tab (int_of_nat n) with Some f -> f | None -> StoreFaults.NoFault) in
+        let o = (match rd_sym scn with
+            | "request_fresh" -> StoreFaults.stored_request false true p
+            | "request_stale" -> StoreFaults.stored_request true true p
+            | "request_stale_idp_refuses" -> StoreFaults.stored_request true false p
+            | "login" -> StoreFaults.callback_save p
+            | "sign_out" -> StoreFaults.sign_out p
+            | "ready" -> StoreFaults.ready_probe p
+            | x -> raise (Bad ("unknown scenario " ^ x))) in
+        let oc = (match o.StoreFaults.o_outcome with
+            | StoreFaults.Upstream true -> "upstream_refreshed" | StoreFaults.Upstream false -> "upstream"
+            | StoreFaults.Unauth -> "unauth" | StoreFaults.ErrorPage -> "error" | StoreFaults.Redirect302 -> "redirect"
+            | StoreFaults.Ready -> "ready" | StoreFaults.NotReady -> "notready") in
+        let opn = (function StoreFaults.OGet -> "get" | StoreFaults.OSet -> "set" | StoreFaults.ODel -> "del"
+                          | StoreFaults.OLockObtain -> "lock_obtain" | StoreFaults.OLockRelease -> "lock_release" | StoreFaults.OPing -> "ping") in
+        L [Y oc; L (List.map (fun x -> Y (opn x)) o.StoreFaults.o_ops); wr_bool o.StoreFaults.o_session_cookie_set; wr_bool o.StoreFaults.o_cookie_cleared]
+      | _ -> raise (Bad "store_flow arity"));
   reg "split_host_port" (function
       | [x] -> wr_opt (wr_pair wr_str wr_str) (NetAddr.split_host_port (rd_str x))
       | _ -> raise (Bad "split_host_port arity"));
